@@ -32,7 +32,8 @@ def main():
         again = []
         for t in tasks:
             r = res.get(t.group)
-            if r is not None and r.get('status') in ('unknown', 'timeout') and not getattr(t, '_retried', False) and not (t.meta or {}).get('noretry'):
+            if r is not None and r.get('status') in ('unknown', 'timeout') and not getattr(t, '_retried', False) and not (t.meta or {}).get('noretry') \
+                    and (r.get('wall_s') or 0) <= 400:
                 kw = dict(t.kwargs)
                 for k in ('timeout', 'budget_s'):
                     if isinstance(kw.get(k), (int, float)):
